@@ -40,6 +40,9 @@ def installation(gen, rnd):
     if gen == 4 and sum(zp) == 0:
         zp[0] = 1  # AT4 without any group: handshake behaviour is C09's subject
     inst = C.default_installation(gen, n_acs, tuple(zp), new_format=rnd.random() < 0.7)
+    if rnd.random() < 0.4:
+        # AC numbers with gaps / not starting at 0
+        C.renumber_acs(inst, sorted(rnd.sample(range(4 if gen == 4 else 8), n_acs)))
     for a in inst["acs"]:
         ab = a["ability"]
         ab["modes"] = {k: rnd.random() < 0.8 for k in ab["modes"]}
